@@ -402,6 +402,17 @@ func (s *vHnswSys) observe(h []string) {
 					if s.nFl > 0 {
 						cause = "after-flush"
 					}
+					// the known pruning defect (F6) also surfaces here: the graph once held
+					// >= 2M+2 vectors, a flush brought it back under 2M, and a live node that
+					// the earlier pruning cut off is still unreachable
+					if bad == "" && s.maxEver >= 2*s.cfg.M+2 {
+						for id := range s.m.live {
+							if !reach[id] {
+								cause += ":live-node-cut-off-by-earlier-pruning"
+								break
+							}
+						}
+					}
 					s.c.Violation("not-exact-when-small", cause, s.cfgS, h, fmt.Sprintf("q=%v k=%d (held <= %d <= 2M, ef=%d): %s; got [%s]", q, k, s.maxRes, s.cfg.Ef, msg, vResStr(res)))
 				}
 				if len(s.m.live) > 1 {
